@@ -179,6 +179,13 @@ impl Property for C16Prop {
             return Some(json!({"kind": "mix", "op": op, "k": k, "inc": 1 + tape.below(4), "ident": 1 + tape.below(4),
                                "readers": tape.below(4), "iters": 200 + tape.below(tier.of(1500, 6000)), "reps": tier.of(2, 6)}));
         }
+        if tape.chance(1, 10) {
+            return Some(if tape.bool() {
+                json!({"kind": "show", "writers": 1 + tape.below(4), "readers": 1 + tape.below(4), "iters": 300 + tape.below(tier.of(2000, 10000)), "reps": tier.of(2, 6)})
+            } else {
+                json!({"kind": "shared-iterator", "threads": threads, "n": 200 + tape.below(tier.of(3000, 20000)), "reps": tier.of(3, 10)})
+            });
+        }
         if tape.chance(1, 8) {
             return Some(json!({"kind": "cross", "which": tape.below(CROSS.len()), "threads": 2 + tape.below(5), "iters": 200 + tape.below(tier.of(3000, 20000)), "reps": tier.of(2, 6)}));
         }
@@ -241,6 +248,8 @@ impl Property for C16Prop {
             "mix" => check_mix(case, stats),
             "append" => check_append(case, stats),
             "cross" => check_cross(case, stats),
+            "show" => check_show(case, stats),
+            "shared-iterator" => check_shared_iterator(case, stats),
             _ => Verdict::Discard("unknown kind"),
         }
     }
@@ -330,6 +339,162 @@ fn check_cross(case: &Json, stats: &mut Stats) -> Verdict {
         stats.label("cross: two cells updated from each other");
         if let Some(b) = bad.lock().unwrap().take() {
             return fail("C16:cross:abnormal", format!("workload {case} on `{text}`: a call returned {b}"));
+        }
+    }
+    stats.sample(2, || json!({"workload": case}));
+    Verdict::Pass
+}
+
+/// Readers render a shared cell (`std.convert.to_string(c)`, what print shows) while writers update it:
+/// every rendering has the shape of the sequential one (`mut int <digits>`), with a value the cell held.
+fn check_show(case: &Json, stats: &mut Stats) -> Verdict {
+    let writers = case["writers"].as_u64().unwrap_or(2) as usize;
+    let readers = case["readers"].as_u64().unwrap_or(2) as usize;
+    let iters = case["iters"].as_u64().unwrap_or(500) as usize;
+    let reps = case["reps"].as_u64().unwrap_or(1) as usize;
+    let text = "c := mut int 0; w := (k: int) -> int { return c += 1; }; r := (k: int) -> string { return std.convert.to_string(c); }; (c, w, r)";
+    let shape = |s: &str| s.chars().map(|ch| if ch.is_ascii_digit() { '9' } else { ch }).collect::<String>().replace("99", "9").replace("99", "9").replace("99", "9").replace("99", "9");
+    for rep in 0..reps {
+        let (w, r) = match run::run_text(text, true) {
+            Outcome::Value(Variable::Tuple(parts)) if parts.len() == 3 => match (&parts[1], &parts[2]) {
+                (Variable::Function(w), Variable::Function(r)) => (w.clone(), r.clone()),
+                _ => return fail("C16:setup", format!("`{text}` did not yield (c, w, r)")),
+            },
+            o => return fail("C16:setup", format!("`{text}`: {}", o.short())),
+        };
+        let render = |f: &Arc<Function>| -> Result<String, String> {
+            let code = match run::guarded(|| f.clone().create_call(vec![Variable::Int(0)])) {
+                Ok(Ok(code)) => code,
+                Ok(Err(e)) => return Err(run::error_kind(&e)),
+                Err(c) => return Err(c.sig()),
+            };
+            match run::exec_guarded(&code) {
+                Outcome::Value(Variable::String(s)) => Ok(s.to_string()),
+                o => Err(o.short()),
+            }
+        };
+        let sequential = match render(&r) {
+            Ok(s) => s,
+            Err(e) => return fail("C16:setup", format!("rendering the cell sequentially: {e}")),
+        };
+        let want = shape(&sequential);
+        let barrier = Arc::new(Barrier::new(writers + readers));
+        let shown: Vec<Result<Vec<String>, String>> = std::thread::scope(|scope| {
+            let mut handles = vec![];
+            for _ in 0..writers {
+                let (w, barrier) = (w.clone(), barrier.clone());
+                handles.push(scope.spawn(move || {
+                    run::default_budget();
+                    barrier.wait();
+                    for i in 0..iters {
+                        if let Ret::Panic(p) = call(&w, i as i64) {
+                            return Err(format!("panic {p}"));
+                        }
+                    }
+                    Ok(vec![])
+                }));
+            }
+            for _ in 0..readers {
+                let (r, barrier) = (r.clone(), barrier.clone());
+                let render = &render;
+                handles.push(scope.spawn(move || {
+                    run::default_budget();
+                    barrier.wait();
+                    (0..iters).map(|_| render(&r)).collect::<Result<Vec<String>, String>>()
+                }));
+            }
+            handles.into_iter().map(|h| h.join().expect("worker")).collect()
+        });
+        stats.evals(((writers + readers) * iters) as u64);
+        stats.nontrivial(&format!("{case}#{rep}"));
+        stats.label("show: a cell rendered while it is updated");
+        for s in shown {
+            match s {
+                Err(e) => return fail("C16:show:abnormal", format!("workload {case}: {e}")),
+                Ok(texts) => {
+                    if let Some(bad) = texts.iter().find(|t| shape(t) != want) {
+                        return fail(
+                            "C16:show:rendering",
+                            format!("{writers} threads updating and {readers} threads rendering one cell: it was shown as `{bad}`; sequentially it is shown as `{sequential}`"),
+                        );
+                    }
+                }
+            }
+        }
+    }
+    stats.sample(2, || json!({"workload": case}));
+    Verdict::Pass
+}
+
+/// One array iterator shared by T threads that pull until it is exhausted: the hidden cursor advances
+/// by one atomic `+=` per pull, so at most n pulls are handed an element, each an element of the array
+/// (a pull as a whole is not atomic: which element it reads, and an IndexOutOfBounds error value when
+/// the cursor is advanced past the end between its check and its read, are not violations).
+fn check_shared_iterator(case: &Json, stats: &mut Stats) -> Verdict {
+    let threads = case["threads"].as_u64().unwrap_or(4) as usize;
+    let n = case["n"].as_u64().unwrap_or(1000) as usize;
+    let reps = case["reps"].as_u64().unwrap_or(1) as usize;
+    let text = format!("a := [0; {n}]~ @ (x: int) -> int {{ return x; }}; k := mut -1; b := a @ (x: int) -> int {{ k += 1; return *k; }} $]; it := b~; pull := (j: int) -> int {{ (more, v) := it(); if more {{ return v; }} return -1; }}; pull");
+    for rep in 0..reps {
+        let pull = match run::run_text(&text, true) {
+            Outcome::Value(Variable::Function(f)) => f,
+            o => return fail("C16:setup", format!("`{text}`: {}", o.short())),
+        };
+        let barrier = Arc::new(Barrier::new(threads));
+        let results: Vec<Result<Vec<i64>, String>> = std::thread::scope(|scope| {
+            let handles: Vec<_> = (0..threads)
+                .map(|_| {
+                    let (pull, barrier) = (pull.clone(), barrier.clone());
+                    scope.spawn(move || {
+                        run::default_budget();
+                        barrier.wait();
+                        let mut got = vec![];
+                        // at most n + 8 pulls per thread: a correct iterator is exhausted long before
+                        for i in 0..n + 8 {
+                            match call(&pull, i as i64) {
+                                Ret::Int(-1) => break,
+                                Ret::Int(v) => got.push(v),
+                                // a pull is not one atomic step: between its bounds check and its read another
+                                // thread may advance the cursor past the end (an error value, not a panic)
+                                Ret::Err(k) if k == "IndexOutOfBounds" => {}
+                                other => return Err(format!("{other:?}")),
+                            }
+                        }
+                        Ok(got)
+                    })
+                })
+                .collect();
+            handles.into_iter().map(|h| h.join().expect("worker")).collect()
+        });
+        stats.evals(n as u64);
+        stats.nontrivial(&format!("{case}#{rep}"));
+        stats.label("shared iterator pulled by several threads");
+        let mut seen = vec![0u32; n];
+        let mut total = 0usize;
+        for r in results {
+            match r {
+                Err(e) => return fail("C16:shared-iterator:abnormal", format!("workload {case}: a pull gave {e}")),
+                Ok(vs) => {
+                    for v in vs {
+                        total += 1;
+                        if v < 0 || v as usize >= n {
+                            return fail("C16:shared-iterator:element", format!("workload {case}: a pull yielded {v}, which is not an element of the array"));
+                        }
+                        seen[v as usize] += 1;
+                    }
+                }
+            }
+        }
+        // the cursor advances by one atomic `+=` per pull: at most n pulls can find it inside the array
+        // (which element a pull then reads may vary: a pull as a whole is not atomic)
+        if total > n {
+            return fail(
+                "C16:shared-iterator:too-many",
+                format!("{threads} threads pulling from one iterator over {n} elements were handed {total} elements: cursor increments were lost"),
+            );
+        }
+        if (0..n).all(|e| seen[e] == 1) {
+            stats.label("shared iterator: every element exactly once");
         }
     }
     stats.sample(2, || json!({"workload": case}));
@@ -869,6 +1034,8 @@ pub fn run(session: &Session) -> i32 {
     for (op, k) in MIX_OPS {
         cases.push(json!({"kind": "mix", "op": op, "k": k, "inc": 3, "ident": 3, "readers": 2, "iters": session.tier.of(1500, 10000), "reps": session.tier.of(2, 8)}));
     }
+    cases.push(json!({"kind": "show", "writers": 4, "readers": 4, "iters": session.tier.of(3000, 30000), "reps": session.tier.of(3, 10)}));
+    cases.push(json!({"kind": "shared-iterator", "threads": 8, "n": session.tier.of(4000, 30000), "reps": session.tier.of(4, 20)}));
     for which in 0..CROSS.len() {
         cases.push(json!({"kind": "cross", "which": which, "threads": 4, "iters": session.tier.of(3000, 30000), "reps": session.tier.of(3, 10)}));
         cases.push(json!({"kind": "cross", "which": which, "threads": 2, "iters": session.tier.of(5000, 50000), "reps": session.tier.of(2, 6)}));
@@ -903,7 +1070,7 @@ pub fn run(session: &Session) -> i32 {
         }
     }
     session.finish(
-        "workloads on real threads released by a barrier and repeated: (orbit) T threads x M identical updates `c op= k` through one shared function value for updates with an injective orbit (+= -= *= <<= >>= /= **= ^=): the multiset of values returned by the assignments must be exactly {f(x0)..f^(TM)(x0)} and the final content f^(TM)(x0); (bits) every single update owns one bit (|= &= ^=): each returned value shows the caller's own update and the final content shows all; (history) 3 threads x 1-3 operations over all 12 assignment operators incl. failing ones, brute-force linearizability of returned values + final content against the i128 model; (mix) incrementing threads + threads applying an identity update of each other operator family (/= 1, **= 1, <<= 0, >>= 0, %= MAX, *= 1, -= 0, |= 0, &= -1) + reading threads on one cell: no increment lost, every increment returns a distinct value, reads/identity updates see a non-decreasing value in range; (append) T threads x M `c += [k]` / `c += \"k,\"` / `c += 1.0` on one shared array, string, float or nested-array cell: the sizes returned by the assignments are exactly 1..TM, each once, and the final content holds every token exactly once; (cross) threads alternately updating each of two cells from the content of the other: every call returns a value within the expected mask, and the workers are watched - if no call completes for 40 s the executions are reported as deadlocked; (isolated) 16 threads executing the same Code objects (loops, closures, recursion, iterator helpers @ ? ~ $] $+ $* $|| $& \\ ? T) must each get the sequential result. Workload shapes are drawn from VERIF_SEED; interleavings are whatever the scheduler produces. Non-trivial = a repetition in which at least two threads' execution intervals overlapped; distinct by workload and repetition.",
+        "workloads on real threads released by a barrier and repeated: (orbit) T threads x M identical updates `c op= k` through one shared function value for updates with an injective orbit (+= -= *= <<= >>= /= **= ^=): the multiset of values returned by the assignments must be exactly {f(x0)..f^(TM)(x0)} and the final content f^(TM)(x0); (bits) every single update owns one bit (|= &= ^=): each returned value shows the caller's own update and the final content shows all; (history) 3 threads x 1-3 operations over all 12 assignment operators incl. failing ones, brute-force linearizability of returned values + final content against the i128 model; (mix) incrementing threads + threads applying an identity update of each other operator family (/= 1, **= 1, <<= 0, >>= 0, %= MAX, *= 1, -= 0, |= 0, &= -1) + reading threads on one cell: no increment lost, every increment returns a distinct value, reads/identity updates see a non-decreasing value in range; (append) T threads x M `c += [k]` / `c += \"k,\"` / `c += 1.0` on one shared array, string, float or nested-array cell: the sizes returned by the assignments are exactly 1..TM, each once, and the final content holds every token exactly once; (cross) threads alternately updating each of two cells from the content of the other: every call returns a value within the expected mask, and the workers are watched - if no call completes for 40 s the executions are reported as deadlocked; (show) threads rendering a cell as text while others update it: every rendering has the sequential shape; (shared-iterator) T threads pulling from one array iterator over n elements are handed at most n elements, each from the array; (isolated) 16 threads executing the same Code objects (loops, closures, recursion, iterator helpers @ ? ~ $] $+ $* $|| $& \\ ? T) must each get the sequential result. Workload shapes are drawn from VERIF_SEED; interleavings are whatever the scheduler produces. Non-trivial = a repetition in which at least two threads' execution intervals overlapped; distinct by workload and repetition.",
         false,
         &["schedules are sampled, not enumerated: a race that needs one specific interleaving can be missed; a deadlock among the workers of the cross workload is reported as a violation after 40 s without a completed call (calls take microseconds); any other hang ends in the watchdog (exit 2)",
           "overlap is measured by wall-clock intervals of the worker threads"],
